@@ -1,6 +1,8 @@
 import Hive.Proofs.Ads
 import Hive.Proofs.AdsTrieExt
 import Hive.Model.AdsTrieLine
+import Hive.Proofs.AdsConc
+import Hive.Gen.C09_Skel
 /-!
 # C09 — authenticated map / set: contents, content-only root, faithful reopen
 
@@ -428,6 +430,206 @@ example :
     (runOps [.put [true, false, true] [1], .put [true, false, false] [2]]).digest freeHash
       = .inner .nil (.inner (.inner (.leaf [true, false, false] [2]) (.leaf [true, false, true] [1])) .nil) := by
   decide
+
+/-! ## concurrent use: the map's RWMutex makes every call atomic
+
+Protocol model `Hive/Model/AdsConc.lean`: any number of goroutines, each with an arbitrary script of
+`Set / Delete / Get / Has / Size / Stream / Root / Commit` calls, any schedule of the micro-steps. -/
+
+section Concurrent
+open Hive.Conc Hive.Ads.Conc
+
+/-- **Serialisation.**  In every reachable configuration (1) at most one goroutine is inside a write
+section and then none holds the read lock; (2) the log of completed calls, in the order in which
+their sections ended, is a run of the *sequential* machine from the initial state to `base`, with
+exactly the logged answers; (3) whenever no write section is in progress the shared state is
+`base`.  So every theorem about histories above applies verbatim to the concurrent object. -/
+theorem C09_serialised (c : Cfg R) (s0 : St R) (scripts : List (List Op))
+    (cf : Hive.Conc.Cfg (Shared R) (Thread R)) (hr : Reach (sys c) (Conc.init s0, scripts.map start) cf) :
+    (cf.2.countP (fun t => inW t.pc) ≤ 1 ∧
+      (cf.2.countP (fun t => inW t.pc) = 1 → cf.2.countP (fun t => inR t.pc) = 0)) ∧
+    run c s0 (logOps cf.1.log) = (cf.1.base, logOuts cf.1.log) ∧
+    (cf.2.countP (fun t => inW t.pc) = 0 → cf.1.st = cf.1.base) := by
+  have hi := inv_reach c s0 scripts hr
+  have hw : cf.2.countP pW = if cf.1.writer then 1 else 0 := hi.wcount
+  have hrd : cf.2.countP pR = cf.1.readers := hi.rcount
+  refine ⟨⟨?_, ?_⟩, hi.logrun, ?_⟩
+  · show cf.2.countP pW ≤ 1
+    rw [hw]; split <;> omega
+  · intro h1
+    show cf.2.countP pR = 0
+    have h1' : cf.2.countP pW = 1 := h1
+    rw [hrd]
+    cases hwr : cf.1.writer with
+    | true => exact hi.excl hwr
+    | false => rw [hw, hwr] at h1'; simp at h1'
+  · intro h0
+    have h0' : cf.2.countP pW = 0 := h0
+    apply hi.quiet
+    cases hwr : cf.1.writer with
+    | false => rfl
+    | true => rw [hw, hwr] at h0'; simp at h0'
+
+/-- **Size = card at quiescence.**  Whenever no write section is in progress — in particular when
+all goroutines are done — the shared map is the state after the sequential history `log`, that
+history is one to which the sequential theorems apply, the raw keys are duplicate free and are
+exactly the present keys, `Size()` is their number, and the trace predicate `quiescentOk` that the
+driver evaluates on the real goroutines' observations holds for every probe of `Has`. -/
+theorem C09_concurrent_quiescent (c : Cfg R) (scripts : List (List Op))
+    (cf : Hive.Conc.Cfg (Shared R) (Thread R))
+    (hr : Reach (sys c) (Conc.init (Ads.init : St R), scripts.map start) cf)
+    (hq : cf.2.countP (fun t => inW t.pc) = 0) :
+    cf.1.st = final c Ads.init (logOps cf.1.log) ∧ CleanFrom c Ads.init (logOps cf.1.log) ∧
+    cf.1.st.rawKeys.Nodup ∧ (∀ k, k ∈ cf.1.st.rawKeys ↔ has cf.1.st k = true) ∧
+    sizeOf cf.1.st = (cf.1.st.rawKeys.length : Int) ∧
+    ∀ T F : List Key, (∀ k ∈ T, has cf.1.st k = true) → (∀ k ∈ F, has cf.1.st k = false) →
+      quiescentOk (sizeOf cf.1.st) cf.1.st.rawKeys T F = true := by
+  obtain ⟨_, hrun, hquiet⟩ := C09_serialised c Ads.init scripts cf hr
+  have hi := inv_reach c Ads.init scripts hr
+  have hclean := cleanFrom_of_methods c (Ads.init : St R) (logOps cf.1.log) (by
+    intro op hop
+    simp only [logOps, List.mem_map] at hop
+    obtain ⟨e, he, rfl⟩ := hop
+    exact hi.logMeth e he)
+  have hst : cf.1.st = final c Ads.init (logOps cf.1.log) := by
+    rw [hquiet hq, ← run_fst, hrun]
+  have hinv := final_inv c Ads.init (logOps cf.1.log) (inv_init c) hclean
+  rw [← hst] at hinv
+  have hmem : ∀ k, k ∈ cf.1.st.rawKeys ↔ has cf.1.st k = true := fun k => by rw [hinv.mem k]; rfl
+  refine ⟨hst, hclean, hinv.nodup, hmem, hinv.size, ?_⟩
+  intro T F hT hF
+  simp only [quiescentOk, Bool.and_eq_true, List.all_eq_true, beq_iff_eq, Bool.not_eq_true']
+  refine ⟨⟨⟨hinv.size, ?_⟩, ?_⟩, ?_⟩
+  · intro k hk
+    rw [hinv.nodup.count]; simp [hk]
+  · intro k hk
+    simpa using (hmem k).mpr (hT k hk)
+  · intro k hk
+    have : ¬ k ∈ cf.1.st.rawKeys := fun hin => by
+      have := (hmem k).mp hin
+      rw [hF k hk] at this; cases this
+    simpa using this
+
+/-- **Readers see only written values.**  Every `Get(k)` that any goroutine completed with a value
+was preceded, in the serialisation order, by a `Set(k, that value)`. -/
+theorem C09_concurrent_readers (c : Cfg R) (scripts : List (List Op))
+    (cf : Hive.Conc.Cfg (Shared R) (Thread R))
+    (hr : Reach (sys c) (Conc.init (Ads.init : St R), scripts.map start) cf)
+    (pre post : List (Op × Out R)) (k : Key) (v : Val)
+    (hlog : cf.1.log = pre ++ (.get (some k), .found v) :: post) :
+    Op.set (some k) (some v) ∈ logOps pre := by
+  obtain ⟨_, hrun, _⟩ := C09_serialised c Ads.init scripts cf hr
+  have hi := inv_reach c Ads.init scripts hr
+  rw [hlog] at hrun
+  have e1 : logOps (pre ++ (Op.get (some k), Out.found v) :: post) = logOps pre ++ (Op.get (some k) :: logOps post) := by
+    simp [logOps]
+  have e2 : logOuts (pre ++ (Op.get (some k), Out.found v) :: post) = logOuts pre ++ (Out.found v :: logOuts post) := by
+    simp [logOuts]
+  rw [e1, e2, Conc.run_append] at hrun
+  have hlen : (run c Ads.init (logOps pre)).2.length = (logOuts pre).length := by
+    rw [run_length]; simp [logOps, logOuts]
+  have houts := congrArg Prod.snd hrun
+  simp only at houts
+  obtain ⟨_, hrest⟩ := List.append_inj houts hlen
+  simp only [run] at hrest
+  have hget : (step c (run c Ads.init (logOps pre)).1 (.get (some k))).2 = .found v :=
+    List.head_eq_of_cons_eq hrest
+  have hclean := cleanFrom_of_methods c (Ads.init : St R) (logOps pre) (by
+    intro op hop
+    simp only [logOps, List.mem_map] at hop
+    obtain ⟨e, he, rfl⟩ := hop
+    exact hi.logMeth e (by rw [hlog]; simp [he]))
+  rw [run_fst, C09_refines c (logOps pre) hclean (.get (some k)) _ rfl] at hget
+  have hsome : Spec.final (logOps pre) k = some v := by
+    simp only [Spec.getOut] at hget
+    cases hm : Spec.final (logOps pre) k with
+    | none => simp [hm] at hget
+    | some w =>
+      simp only [hm] at hget
+      cases hd : c.dec w <;> simp [hd] at hget
+      rw [hget]
+  rcases spec_foldl_some (logOps pre) Spec.empty k v hsome with h | h
+  · simp [Spec.empty] at h
+  · exact h
+
+/-- What the lock is needed for (regression witness for "presence check outside the lock"): when
+`has(key)` is evaluated before `mutex.Lock()`, two `Set`s of one absent key both see it absent and
+both increase the size — `Size() = 2` with one key. -/
+theorem C09_unlocked_has_witness :
+    (unlockedHasRun (Ads.init : St Unit) [1] [2]).size = some 2 ∧
+    (unlockedHasRun (Ads.init : St Unit) [1] [2]).rawKeys = [[1]] := by
+  decide
+
+end Concurrent
+
+/-! ## Regenerated tie: the lock / trie / store-cell skeletons the models were written against
+
+`Hive/Gen/C09_Skel.lean` is regenerated from ads/map_impl.go on every run.  The protocol model's
+program counters are read off these skeletons: every method but `Size` and `WasRestoredFromStorage`
+is `lock m.mutex` with a deferred `unlock`; `Set` = (serializers) `has` → `tree.Update` →
+`rawKeysStore.Set` → conditional `addSize`; `Delete` = `has` → early return → `tree.Delete` →
+`rawKeysStore.Delete` → `addSize`; `addSize` = `size.Get` then `size.Set`; `Commit` = `root.Set`
+then `tree.Commit`; `Size` = `rlock`, one `size.Get`.  The same lists are the order of effects of the
+sequential model.  Moving the presence check out of the lock, dropping a lock, or reordering the
+writes breaks one of these obligations even when no stress schedule hits the difference. -/
+
+open Hive.Gen.C09Skel in
+theorem C09_skeleton_set : skel_authenticatedMap_Set =
+    ["lock m.mutex", "defer unlock m.mutex", "if{", "return", "}if", "if{",
+     "}if", "if{", "return", "}if", "helper has", "if{",
+     "return", "}if", "call m.tree.Update", "if{", "return", "}if",
+     "call m.rawKeysStore.Set", "if{", "return", "}if", "if{", "helper addSize",
+     "if{", "return", "}if", "}if", "return"] := by decide
+
+open Hive.Gen.C09Skel in
+theorem C09_skeleton_delete : skel_authenticatedMap_Delete =
+    ["lock m.mutex", "defer unlock m.mutex", "if{", "return", "}if", "helper has",
+     "if{", "return", "}if", "if{", "return", "}if",
+     "call m.tree.Delete", "if{", "return", "}if", "call m.rawKeysStore.Delete", "if{",
+     "return", "}if", "if{", "helper addSize", "if{", "return",
+     "}if", "}if", "return"] := by decide
+
+open Hive.Gen.C09Skel in
+theorem C09_skeleton_size : skel_authenticatedMap_Size =
+    ["rlock m.mutex", "defer runlock m.mutex", "call m.size.Get", "if{", "return", "}if", "return"] := by decide
+
+open Hive.Gen.C09Skel in
+theorem C09_skeleton_commit : skel_authenticatedMap_Commit =
+    ["lock m.mutex", "defer unlock m.mutex", "call m.tree.Root", "call m.root.Set", "if{", "return",
+     "}if", "call m.tree.Commit", "return"] := by decide
+
+open Hive.Gen.C09Skel in
+theorem C09_skeleton_root : skel_authenticatedMap_Root =
+    ["lock m.mutex", "defer unlock m.mutex", "call m.tree.Root", "return"] := by decide
+
+open Hive.Gen.C09Skel in
+theorem C09_skeleton_has : skel_authenticatedMap_Has =
+    ["lock m.mutex", "defer unlock m.mutex", "if{", "return", "}if", "helper has", "return"] := by decide
+
+open Hive.Gen.C09Skel in
+theorem C09_skeleton_get : skel_authenticatedMap_Get =
+    ["lock m.mutex", "defer unlock m.mutex", "if{", "return", "}if", "call m.tree.Get",
+     "if{", "return", "}if", "if{", "return", "}if",
+     "if{", "return", "}if", "if{", "return", "}if", "return"] := by decide
+
+open Hive.Gen.C09Skel in
+theorem C09_skeleton_stream : skel_authenticatedMap_Stream =
+    ["lock m.mutex", "defer unlock m.mutex", "func{", "if{", "return", "}if",
+     "call m.tree.Get", "if{", "return", "}if", "if{", "return",
+     "}if", "if{", "return", "}if", "return", "}func",
+     "call m.rawKeysStore.IterateKeys", "if{", "return", "}if", "return"] := by decide
+
+open Hive.Gen.C09Skel in
+theorem C09_skeleton_restored : skel_authenticatedMap_WasRestoredFromStorage =
+    ["call m.root.Get", "return"] := by decide
+
+open Hive.Gen.C09Skel in
+theorem C09_skeleton_has_helper : skel_authenticatedMap_has =
+    ["call m.tree.Get", "if{", "return", "}if", "return"] := by decide
+
+open Hive.Gen.C09Skel in
+theorem C09_skeleton_addSize : skel_authenticatedMap_addSize =
+    ["call m.size.Get", "if{", "return", "}if", "call m.size.Set", "if{", "return", "}if", "return"] := by decide
 
 /-! ## the hypotheses are satisfiable; a concrete non-trivial run -/
 
